@@ -72,6 +72,8 @@ def sweep_base(base, seed, agg, opts):
                         plan.append((o, k, kind, {"nth": nth, "frac": 0.3}))
                 else:
                     plan.append((o, k, kind, {}))
+                    if kind in ("HTTP_5XX", "CONN_ERR", "TIMEOUT", "ERR_BEFORE"):
+                        plan.append((o, k, kind, {"persist": True}))
         # validator rejections of hits
         hits = [k for k in o["keys"] if k not in w.miss_log.get(o["id"], []) and keys[k]["val"]]
         for k in hits:
